@@ -355,6 +355,7 @@ fn gen_scenario(rng: &mut Rng) -> Scenario {
         let prelude = if !owned && rng.chance(1, 5) { Some(Prelude { segs: rng.range(0, cfg.tcp_capacity.min(3) as u64) as u8, client_reads: rng.chance(1, 3), gap: rng.range(0, lat + 1) as u16 }) } else { None };
         conns.push(ConnSpec { prelude, client, server, via, bind_localhost: via == Via::Loopback && rng.chance(1, 2), connect_delay: rng.range(1, 3) as u16, c, s });
     }
+    let conn_delay_max = 3u64;
     let mut script = Vec::new();
     let mode = if owned {
         let rounds = rng.usize(0, 8);
@@ -383,6 +384,41 @@ fn gen_scenario(rng: &mut Rng) -> Scenario {
         }
         Mode::Latency
     };
+    // "a drop while no inbound data is unread" with the peer's write side still open: one end writes, never reads
+    // and drops its stream before the peer has written anything; the peer writes (towards a stream that is gone, the
+    // answer is a RST) and only afterwards starts to read what the first end sent before it left
+    if !owned && rng.chance(1, 10) {
+        script.clear();
+        let cap = cfg.tcp_capacity;
+        let conn = &mut conns[0];
+        let a_side = rng.usize(0, 1);
+        let (a, b) = if a_side == 0 { (&mut conn.c, &mut conn.s) } else { (&mut conn.s, &mut conn.c) };
+        a.rops.clear();
+        a.drain = None;
+        a.keep = false;
+        a.wops.retain(|o| matches!(o, WOp::Write { len, .. } if *len > 0));
+        a.wops.truncate(cap.min(4));
+        for o in a.wops.iter_mut() {
+            if let WOp::Write { how, .. } = o {
+                *how = WHow::Write;
+            }
+        }
+        if a.wops.is_empty() {
+            a.wops.push(WOp::Write { len: 7, how: WHow::Write });
+        }
+        let a_sleeps = a.fin_delay as u64 + a.linger as u64 + conn_delay_max;
+        let wait = a_sleeps + lat + 4 + rng.range(0, 3);
+        b.wops.retain(|o| matches!(o, WOp::Write { len, .. } if *len > 0));
+        b.wops.truncate(3);
+        b.wops.insert(0, WOp::Sleep { ticks: wait as u16 });
+        b.wops.insert(1, WOp::Write { len: *rng.pick(&[1u16, 5, 64]), how: WHow::Write });
+        b.rops = vec![ROp::Sleep { ticks: (wait + 2 * lat + 4 + rng.range(0, 3)) as u16 }];
+        if rng.bool() {
+            b.rops.push(ROp::Peek { buf: *rng.pick(&[1u16, 8, 64]) });
+        }
+        b.drain = Some(*rng.pick(&[1u16, 3, 16, 256]));
+        b.keep = rng.chance(1, 4);
+    }
     let sc = Scenario { cfg, guarded, hosts, conns, mode, script, enumerate: owned };
     sc
 }
@@ -419,6 +455,10 @@ struct ConnSt {
     d: [DirSt; 2],
     /// an end dropped its read side before it saw EOF: RST may follow, nothing but safety is judged
     abortive: bool,
+    /// Some(t): that side dropped its stream at sim time t (us) while the peer's write side was still open but every
+    /// byte the peer's writes had accepted was already consumed ("a drop while no inbound data is unread"): a
+    /// graceful close of that side's outbound direction; only the peer's later writes go nowhere
+    quiet_drop: [Option<u64>; 2],
     started: [bool; 2],
     end_done: [bool; 2],
     /// client port of the throw-away connection (its segments are not this connection's)
@@ -435,6 +475,9 @@ struct Sh {
     probes: Rc<RefCell<Counters>>,
     partitioned: Rc<Cell<bool>>,
     tick: Duration,
+    /// seeded latencies, no hold / partition anywhere in the script: what was sent first by `max_latency` arrives first
+    plain_links: bool,
+    max_latency_us: u64,
 }
 
 impl Sh {
@@ -805,7 +848,7 @@ async fn reader(sh: Sh, c: usize, side: usize, spec: EndSpec, io: IoCell) {
 // the write program
 
 fn judge_write_err(sh: &Sh, c: usize, e: &io::Error, who: &str, what: &str) {
-    let abortive = sh.st.borrow()[c].abortive;
+    let abortive = sh.st.borrow()[c].abortive || sh.st.borrow()[c].quiet_drop.iter().any(|q| q.is_some());
     let allowed = e.kind() == io::ErrorKind::BrokenPipe && (abortive || sh.partitioned.get());
     if e.kind() == io::ErrorKind::BrokenPipe {
         sh.probe("writer_saw_broken_pipe");
@@ -818,9 +861,26 @@ fn judge_write_err(sh: &Sh, c: usize, e: &io::Error, who: &str, what: &str) {
     }
 }
 
+fn now_us() -> u64 {
+    turmoil::sim_elapsed().map(|d| d.as_micros() as u64).unwrap_or(0)
+}
+
+/// A segment (data or FIN) sent after the peer's quiet drop is answered with a RST; unless everything the peer had
+/// sent before it dropped has certainly arrived by now, the RST may overtake it: the close counts as abortive then.
+fn sent_towards_gone_peer(sh: &Sh, cs: &mut ConnSt, dir: usize) {
+    if let Some(td) = cs.quiet_drop[1 - dir] {
+        if now_us() < td + sh.max_latency_us + 2 * sh.tick.as_micros() as u64 {
+            cs.abortive = true;
+        } else if !cs.abortive {
+            sh.probe("sent_after_the_peers_graceful_drop");
+        }
+    }
+}
+
 fn accept_bytes(sh: &Sh, c: usize, dir: usize, n: usize) {
     if n > 0 {
         let mut st = sh.st.borrow_mut();
+        sent_towards_gone_peer(sh, &mut st[c], dir);
         let d = &mut st[c].d[dir];
         d.accepted += n as u64;
         let e = d.accepted;
@@ -966,6 +1026,7 @@ async fn writer(sh: Sh, c: usize, side: usize, spec: EndSpec, io: IoCell) {
         Fin::None => {}
         Fin::Shutdown | Fin::DropWrite | Fin::ShutdownDropWrite => {
             sh.st.borrow_mut()[c].d[dir].close_started = true;
+            sent_towards_gone_peer(&sh, &mut sh.st.borrow_mut()[c], dir);
             let split_w = match &mut *io.borrow_mut() {
                 Io::Split(_, w) if spec.fin == Fin::DropWrite => w.take(),
                 _ => None,
@@ -1045,21 +1106,30 @@ async fn run_end(sh: Sh, c: usize, side: usize, spec: EndSpec, stream: TcpStream
     // final drop
     let (inb, outb) = (1 - side, side);
     let mut only_fin_unread = false;
+    let mut quiet_drop = false;
     let graceful = {
         let mut st = sh.st.borrow_mut();
         let seen = st[c].d[inb].eof || st[c].d[inb].reset;
         // "a drop while no inbound data is unread" is a graceful close: the peer has closed its write
         // side and every byte it wrote was consumed, only its FIN (queued or still in flight) is unread
         let nothing_unread = st[c].d[inb].closed_ok && st[c].d[inb].read_off == st[c].d[inb].accepted;
-        if !seen && !nothing_unread {
+        // the peer's write side is still open, but nothing it wrote so far is unread, queued or in flight
+        let quiet = !seen && !nothing_unread && sh.plain_links && !st[c].abortive && st[c].d[inb].read_off == st[c].d[inb].accepted && st[c].quiet_drop[1 - side].is_none();
+        if quiet {
+            st[c].quiet_drop[side] = Some(now_us());
+            quiet_drop = true;
+        } else if !seen && !nothing_unread {
             st[c].abortive = true;
         }
         if !seen && nothing_unread {
             only_fin_unread = true;
         }
         st[c].d[outb].close_started = true;
-        seen || nothing_unread
+        seen || nothing_unread || quiet_drop
     };
+    if quiet_drop {
+        sh.probe("dropped_with_nothing_unread_while_the_peer_still_writes");
+    }
     if only_fin_unread {
         sh.probe("dropped_with_only_the_fin_unread");
     }
@@ -1071,7 +1141,7 @@ async fn run_end(sh: Sh, c: usize, side: usize, spec: EndSpec, stream: TcpStream
         },
         other => drop(other),
     }
-    sh.log.ev(format!("{who} dropped its stream ({})", if only_fin_unread { "every inbound byte consumed, only the peer's FIN unread" } else if graceful { "inbound direction already at EOF" } else { "BEFORE inbound EOF, inbound data may be unread" }));
+    sh.log.ev(format!("{who} dropped its stream ({})", if only_fin_unread { "every inbound byte consumed, only the peer's FIN unread" } else if quiet_drop { "every inbound byte so far consumed, the peer's write side still open" } else if graceful { "inbound direction already at EOF" } else { "BEFORE inbound EOF, inbound data may be unread" }));
     sh.log.tag(if graceful { "drop" } else { "drop!" });
     {
         let mut st = sh.st.borrow_mut();
@@ -1228,6 +1298,8 @@ fn execute(sc: &Scenario, keep: bool) -> (Report, RunInfo) {
         probes: Rc::new(RefCell::new(Counters::default())),
         partitioned: Rc::new(Cell::new(false)),
         tick: sc.cfg.tick(),
+        plain_links: matches!(sc.mode, Mode::Latency) && sc.script.is_empty(),
+        max_latency_us: sc.cfg.max_latency_us,
     };
     let mut info = RunInfo::default();
     let mut faults = Counters::default();
@@ -1435,6 +1507,9 @@ fn execute(sc: &Scenario, keep: bool) -> (Report, RunInfo) {
                 let (w, r) = (sc.conns[c].end(d), sc.conns[c].end(1 - d));
                 if r.drain.is_none() {
                     continue; // the delivery half presumes a reader that keeps reading
+                }
+                if cs.quiet_drop[1 - d].is_some() {
+                    continue; // the reader of this direction is gone
                 }
                 let ds = &cs.d[d];
                 let name = if d == 0 { "client->server" } else { "server->client" };
